@@ -61,6 +61,26 @@ def orient(op, a, b, lhs_pred):
     return None
 
 
+NEG = {"Lt": "Ge", "Ge": "Lt", "Le": "Gt", "Gt": "Le", "Eq": "Ne", "Ne": "Eq"}
+
+
+def decided(at, lhs_pred, want_ops):
+    """The atom read as `lhs OP rhs` with lhs_pred(lhs) and OP in want_ops, whichever way round and in whichever polarity it is
+    written: (op, lhs, rhs, targets when it holds, targets when it does not) or None. `x < c` is `!(x >= c)`; `c <= x` is `x >= c`."""
+    c = at.cond()
+    if not c:
+        return None
+    o = orient(c[0], c[1], c[2], lhs_pred)
+    if o is None:
+        return None
+    op, a, b = o
+    if op in want_ops:
+        return (op, a, b, at.true_targets, at.false_targets)
+    if NEG.get(op) in want_ops:
+        return (NEG[op], a, b, at.false_targets, at.true_targets)
+    return None
+
+
 def acc(term):
     """Account field name if term is rooted at ctx.accounts.<name>."""
     for s in subterms(term):
